@@ -193,3 +193,17 @@ theorem hist_actions_readonly {s s' : Sys} {a : Act} {h oid : Nat}
   · exact absurd hs hnewOid_not_ok
 
 end Proofs.Mvcc
+
+namespace Proofs.Mvcc
+open ZodbModel.Mvcc
+
+theorem reachable_run {s : Sys} (hr : Reachable s) (as : List Act) : Reachable (run s as) := by
+  induction as generalizing s with
+  | nil => exact hr
+  | cons a r ih =>
+    unfold run
+    split
+    · next s' hs => exact ih (Reachable.step a hr hs)
+    · exact ih hr
+
+end Proofs.Mvcc
